@@ -121,6 +121,14 @@ def judge(d, _=None):
             V(out, "C12", "entered-after-final-failure",
               f"{d.program['name']}: function entered in invocation {late[0]['inv']} after the FAIL record", **feat)
         delivered = [o for o in w.obs if o["path"] == path and o["tick"] > t_fail and o["kind"] in ("ret", "exc")]
+    # the final failure is raised only once the FAIL record has been accepted
+    for o in w.obs:
+        if o["path"] == path and o["kind"] == "exc" and not o.get("invocation_error") and o["r"].startswith("exc:CallableRuntimeError"):
+            if o["row_status"] != "FAILED":
+                V(out, "C12", "failure-raised-before-it-was-recorded",
+                  f"{d.program['name']}: the step's error was raised in invocation {o['inv']} while the backend row was "
+                  f"{o['row_status']}", **feat)
+    if fails:
         for o in delivered:
             if o["kind"] != "exc":
                 V(out, "C12", "final-failure-not-raised", f"{d.program['name']}: after FAIL the call delivered {o['r']}", **feat)
